@@ -87,10 +87,12 @@ def thorough_checks(S, mod, prop, seed):
             'seconds': round(time.time() - t0, 1), 'counts_as_proof': False})
     for fn, props in ((validate.posixpath_models, None),
                       (validate.quote_models, ('C02', 'C03', 'C09', 'C20', 'C12')),
-                      (validate.datetime_models, ('C03', 'C10', 'C09', 'C20', 'C02'))):
+                      (validate.datetime_models, ('C03', 'C10', 'C09', 'C20', 'C02')),
+                      (validate.argparse_models, ('C01', 'C07', 'C16', 'C14', 'C10',
+                                                  'C06', 'C13', 'C19', 'C20'))):
         if props is None or prop in props:
             t1 = time.time()
-            r = fn()
+            r = fn(repo=S.interp.repo) if fn is validate.argparse_models else fn()
             r['kind'] = 'model-validation'
             r['seconds'] = round(time.time() - t1, 1)
             out.append(r)
